@@ -1,0 +1,18 @@
+//go:build verif
+
+package livesql
+
+import (
+	"database/sql/driver"
+)
+
+// verifFieldRoundTrip composes the two real wire conversions so that their round trip can be stated as the
+// postcondition of a function (C13). It exists only under the build tag `verif` and is called by nothing; the
+// contract in contracts_verif.go is checked against the contracts of valueToField and FieldToValue.
+func verifFieldRoundTrip(v driver.Value) (driver.Value, error) {
+	f, err := valueToField(v)
+	if err != nil {
+		return nil, err
+	}
+	return FieldToValue(f)
+}
